@@ -364,8 +364,14 @@ class ScipyOptimizeDriver(Driver):
                     
                     if linear:
                         # LinearConstraint
-                        con = LinearConstraint(A=lincongrad[self._con_idx[name]],
-                                               lb=lb, ub=ub, keep_feasible=True)
+                        # The constraint is affine, con(x) = A x + b, while scipy bounds A x.
+                        i = self._con_idx[name]
+                        A = lincongrad[i:i + size]
+                        b = self._con_cache[name] - A.dot(x_init)
+                        con = LinearConstraint(A=A,
+                                               lb=np.where(lb > -INF_BOUND, lb - b, -np.inf),
+                                               ub=np.where(ub < INF_BOUND, ub - b, np.inf),
+                                               keep_feasible=True)
                         constraints.append(con)
                     else:
                         # NonlinearConstraint
